@@ -50,7 +50,11 @@ struct layout_right::mapping {
     }
 
     template <typename OtherExtents>
-    constexpr explicit(extents_type::rank() > 0) mapping(layout_stride::mapping<OtherExtents> const&) noexcept;
+        requires is_constructible_v<extents_type, OtherExtents>
+    constexpr explicit(extents_type::rank() > 0) mapping(layout_stride::mapping<OtherExtents> const& other) noexcept
+        : _extents{other.extents()}
+    {
+    }
 
     constexpr auto operator=(mapping const&) noexcept -> mapping& = default;
 
